@@ -37,6 +37,8 @@ def oracle_case(case, im):
     # system-trace handlers obey the same rule (for tracers that have them)
     for i, (e, entry) in enumerate(zip(exp, im["log"])):
         want = [t for t in e if case["cfg"][t]["has_sys"]]
+        if entry[0] == "RTop":
+            continue          # tracer.exec / eval hide the frames of their own scaffold from `call` handlers: nothing to compare
         if entry[3] != want:
             return {"what": "site %d (%s): system-trace 'call' handlers ran for tracers %s, stack-of-booleans reference says %s" % (i, kinds[i], entry[3], want),
                     "site_index": i, "expected": want, "observed": entry[3]}
